@@ -186,7 +186,12 @@ func genHist(r *rand.Rand, id string, tier string, extremes bool) string {
 			if !extremes && n == 0 {
 				ops = append(ops, "rev")
 			} else {
-				ops = append(ops, fmt.Sprintf("rep %s %d", genElem(r), idx()))
+				x, i := genElem(r), idx()
+				if cur, ok := guardAny(func() any { y, _ := live.Index(int(i)); return y }).(int); ok && cur >= 0 && i >= 0 && i < int64(n) && r.Intn(2) == 0 {
+					// a look-alike of what is there (a pointer to an equal int: IsEqual would not tell them apart): replaced all the same
+					x = V{T: 'o', Ty: 32, ID: cur}
+				}
+				ops = append(ops, fmt.Sprintf("rep %s %d", x, i))
 			}
 		case 11, 12:
 			if !extremes && n == 0 {
@@ -345,6 +350,15 @@ func guardInt(f func() int) (n int) {
 	defer func() {
 		if recover() != nil {
 			n = 0
+		}
+	}()
+	return f()
+}
+
+func guardAny(f func() any) (x any) {
+	defer func() {
+		if recover() != nil {
+			x = nil
 		}
 	}()
 	return f()
